@@ -134,7 +134,9 @@ def parseSeqEnv (s : String) : Option Env :=
   | [id, hd, m, d, mt, b, t, r] => do
     let id ← id.toNat?
     let m ← parseHex m; let d ← parseHex d
-    let kvs : List KV := if mt == "1" then [⟨[107], [118]⟩] else if mt == "2" then [⟨[107,45,98,105,110], [33,33]⟩] else []
+    let kvs : List KV := if mt == "1" then [⟨[107], [118]⟩] else if mt == "2" then [⟨[107,45,98,105,110], [33,33]⟩]
+      else if mt == "3" then [⟨[75,45,66,105,110], [33,33]⟩]  -- "K-Bin": the suffix test is on the lower-cased key
+      else []
     some { id := id,
            header := if hd == "1" then some { method := m, dst := d, src := [99], headers := kvs } else none,
            body := if b == "1" then some [] else none,
